@@ -186,8 +186,8 @@ pub fn encode_text(text: &str, enc: usize) -> Vec<u8> {
     }
 }
 
-/// D5 class: some UTF-16 code unit of the text other than U+000A has 0x0A as
-/// one of its two bytes.
+/// some UTF-16 code unit of the text other than U+000A has 0x0A as one of its
+/// two bytes (the class of the repaired finding D5: such a unit used to end the line)
 pub fn has_lf_byte_unit(text: &str) -> bool {
     text.encode_utf16().any(|u| u != 0x000A && ((u & 0xFF) == 0x0A || (u >> 8) == 0x0A))
 }
@@ -202,7 +202,7 @@ const SAFE_CHARS: [char; 40] = [
     '\u{1680}', '\u{2003}', '\u{2028}', '\u{3000}', '\u{d7ff}', '\u{e000}', '\u{feff}', '\u{fffd}', '\u{ffff}', '\u{10000}',
     '😀', '\u{10ffff}', '\u{1f600}', '\u{2f800}', 'ø', 'Ω', 'ж', '한', '\u{200b}', '\u{fe0f}', '~',
 ];
-/// characters whose UTF-16 form contains a 0x0A byte (D5 class)
+/// characters whose UTF-16 form contains a 0x0A byte (low byte, high byte, a low surrogate)
 pub const LF_BYTE_CHARS: [char; 8] = ['上', '\u{010a}', '\u{0a00}', '\u{0a41}', '\u{0aff}', '\u{200a}', '\u{ff0a}', '\u{1040a}'];
 
 pub fn rand_value(r: &mut Rng, lf_bytes: bool) -> String {
@@ -561,7 +561,8 @@ fn other_paths(out: &mut Out, name: &str, enc: usize, data: &[u8], reference: &M
 pub fn texts(r: &mut Rng, n_generated: usize) -> Vec<(String, String)> {
     let mut v = bundled_texts();
     for i in 0..n_generated {
-        v.push((format!("generated#{i}"), gen_text(r, false)));
+        // every third text has characters whose UTF-16 code units contain a byte 0x0A
+        v.push((format!("generated#{i}"), gen_text(r, i % 3 == 2)));
     }
     v
 }
